@@ -70,7 +70,8 @@ def shaperHead (inT out : Ty) (deep : Except ShapeErr Ty) : Except ShapeErr Ty :
   if inT.under = out.under || inT.under = tyNull then .ok out
   else if out.isMap then .error .maps
   else if inT.isPrim && out.isPrim then
-    (if out.under = tyNull then .error .castNotImpl else .ok out)
+    -- `LookupPrimitiveCaster` knows neither null nor enum nor error types
+    (if out.under = tyNull || out.isEnum || out.isError then .error .castNotImpl else .ok out)
   else deep
 
 /-- array / set input: `bestUnionTag`, then the inner-type branch (`inner oi` is
@@ -109,6 +110,8 @@ def shaperTypeU (orig : Ty) : Ty → Ty → Except ShapeErr Ty
   | .set i, out => shaperInner orig out fun oi => shaperHead i oi (shaperTypeU i i oi)
   | .map _ _, out => if (bestUnionTag orig out.under).isSome then .ok out else .ok orig
   | .prim _, out => if (bestUnionTag orig out.under).isSome then .ok out else .ok orig
+  | .enum _, out => if (bestUnionTag orig out.under).isSome then .ok out else .ok orig
+  | .error _, out => if (bestUnionTag orig out.under).isSome then .ok out else .ok orig
 termination_by structural x => x
 /-- every member of an input union can be shaped (only errors matter) -/
 def shaperTypeMembers : Tys → Ty → Bool
@@ -212,6 +215,10 @@ def newStepU (orig : Ty) : Ty → Ty → Except ShapeErr Step
     | .record fo => (recordChildren (fun n t => newStepField fa 0 n t) fo).map fun cs => .record out cs
     | _ => toUnionOrFail orig out
   | .prim _, out =>
+    if out.isPrim then .ok (.castPrim orig out) else toUnionOrFail orig out
+  | .enum _, out =>
+    if out.isPrim then .ok (.castPrim orig out) else toUnionOrFail orig out
+  | .error _, out =>
     if out.isPrim then .ok (.castPrim orig out) else toUnionOrFail orig out
   | .array i, out => newStepInner orig out fun oi => newStepHead i oi (newStepU i i oi)
   | .set i, out => newStepInner orig out fun oi => newStepHead i oi (newStepU i i oi)
@@ -364,7 +371,8 @@ def outOfBuild : BuildRes → Out
 
 /-- `ConstShaper.Eval` for `expr = this`, transforms Cast|Fill|Order (no primitive caster). -/
 def evalShaper (shapeTo : Ty) (c : Cache) (inT : Ty) (v : Val) : Out × Cache :=
-  if v = .null then (.val shapeTo .null, c)
+  if inT.isError then (.val inT v, c)       -- `val.IsError()`: error values pass through
+  else if v = .null then (.val shapeTo .null, c)
   else if inT.under = shapeTo.under then (.val shapeTo v, c)
   else
     match c.find inT.under with
